@@ -4,6 +4,7 @@ package rules
 // Each is attached to the property whose clause it is a necessary condition of.
 
 import (
+	"go/constant"
 	"go/token"
 	"go/types"
 	"sort"
@@ -2049,12 +2050,15 @@ func rulePersistedIndexClamped(c *report.Ctx) {
 		cc := an.CallOf(s)
 		key := siteKey(f, "updateChildNum", i+1)
 		want := "ExternalChildNum"
-		if k, ok := cc.Args[1].(*ssa.Const); ok && k.Value != nil && k.Value.ExactString() == "true" {
+		if k := foldConst(cc.Args[1], 0); k != nil && k.Kind() == constant.Bool && constant.BoolVal(k) {
 			want = "InternalChildNum"
 		}
 		ok := false
 		if ph, isPhi := cc.Args[2].(*ssa.Phi); isPhi {
 			for _, e := range ph.Edges {
+				if cv, isConv := e.(*ssa.Convert); isConv && types.Identical(cv.Type(), cv.X.Type()) {
+					e = cv.X
+				}
 				if strings.HasSuffix(p.Desc(e), "hdPath."+want) {
 					ok = true
 				}
